@@ -190,12 +190,9 @@ namespace Givaro {
 
     double Integer::operator % (const double l) const
     {
-        double res ;
-        if (l>0)
-            res =  static_cast<double>(this->operator%( static_cast<uint64_t>(l) ) );
-        else{
-            res =  static_cast<double>(this->operator%( static_cast<uint64_t>(-l) ) );
-        }
+        // through Integer: the uint64_t overload returns an int64_t, which wraps for |l| > 2^63, and the
+        // int64_t -> double conversion rounds to nearest, which can give |res| == |l|; mpz_get_d truncates
+        const double res = static_cast<double>( this->operator%( Integer(l) ) );
         assert((res<GIVABS(l)) && (res> -GIVABS(l)) && (((res>0)?1:((res==0)?0:-1))*(*this).priv_sign()>=0)) ;
         return res;
     }
